@@ -360,7 +360,77 @@ def validator_facts(repo):
         else:
             raise TranslationError("F16", "__init_processing", "statement")
     F['resets'] = resets
+
+    # validate(): statements before __init_processing (per-call attributes set there)
+    fn = find_func(bv, 'validate')
+    pro = []
+    for st in fn.body:
+        if isinstance(st, ast.Expr) and isinstance(st.value, ast.Constant):
+            continue
+        if isinstance(st, ast.Assign) and len(st.targets) == 1 and is_self_attr(st.targets[0]):
+            pro.append(st.targets[0].attr + "=" + ast.unparse(st.value))
+            continue
+        if isinstance(st, ast.Expr) and isinstance(st.value, ast.Call) and is_self_attr(st.value.func, '_BareValidator__init_processing') \
+                or (isinstance(st, ast.Expr) and ast.unparse(st).startswith('self.__init_processing(')):
+            break
+        raise TranslationError("F16", "validate", "unexpected statement before __init_processing: " + ast.unparse(st)[:60])
+    else:
+        raise TranslationError("F16", "validate", "__init_processing call not found")
+    F['validate_prologue'] = pro
+    src = ast.unparse(fn)
+    for needle in ("if normalize:\n        self.__normalize_mapping(self.document, self.schema)",
+                   "if not self.update:\n        self.__validate_required_fields(self.document)",
+                   "return not bool(self._errors)"):
+        if needle not in src:
+            raise TranslationError("F16", "validate", "shape changed: missing `%s`" % needle)
+
+    # metaclass: per-class cache
+    im = find_class(mod, 'InspectedValidator')
+    init = find_func(im, '__init__')
+    F['cache_per_class'] = any(ast.unparse(st) == "cls._valid_schemas = set()" for st in init.body)
     return F
+
+
+def cache_facts(repo):
+    """F21: cache key shape per site (schema.py) and the freezer's scalar case (utils.py)"""
+    mod = parse(repo, 'cerberus/schema.py')
+    sites = []
+
+    def tag_of(call):
+        # mapping_hash(X): X is a name (whole schema) or {'tag': value}
+        a = call.args[0]
+        if isinstance(a, ast.Dict) and len(a.keys) == 1 and isinstance(a.keys[0], ast.Constant):
+            return a.keys[0].value
+        if isinstance(a, ast.Name):
+            return ""
+        raise TranslationError("F21", "cache key", "unrecognised key expression " + ast.unparse(a))
+    for cname, fname in (('DefinitionSchema', 'validate'), ('SchemaValidatorMixin', '_check_with_bulk_schema'),
+                         ('SchemaValidatorMixin', '_check_with_schema'), ('SchemaValidatorMixin', '_validate_logical')):
+        fn = find_func(find_class(mod, cname), fname)
+        hs = [n for n in ast.walk(fn) if isinstance(n, ast.Assign) and len(n.targets) == 1 and isinstance(n.targets[0], ast.Name)
+              and n.targets[0].id == '_hash']
+        if len(hs) != 1 or not isinstance(hs[0].value, ast.Tuple) or len(hs[0].value.elts) != 2:
+            raise TranslationError("F21", fname, "expected one `_hash = (mapping_hash(..), mapping_hash(..types_mapping))`")
+        k0, k1 = hs[0].value.elts
+        if not (isinstance(k0, ast.Call) and ast.unparse(k0.func) == 'mapping_hash' and isinstance(k1, ast.Call)
+                and ast.unparse(k1.func) == 'mapping_hash' and ast.unparse(k1.args[0]).endswith('types_mapping')
+                and ('target_validator' in ast.unparse(k1.args[0]) or ast.unparse(k1.args[0]) == 'self.validator.types_mapping')):
+            raise TranslationError("F21", fname, "cache key is not (hash of the schema, hash of the target validator's types_mapping)")
+        src = ast.unparse(fn)
+        if "_valid_schemas.add(_hash)" not in src or ("_hash in self.target_validator._valid_schemas" not in src
+                                                       and "_hash not in self.validator._valid_schemas" not in src):
+            raise TranslationError("F21", fname, "cache lookup / insert shape changed")
+        sites.append((fname.lstrip('_'), tag_of(k0)))
+    um = parse(repo, 'cerberus/utils.py')
+    fz = [n for n in um.body if isinstance(n, ast.FunctionDef) and n.name == 'mapping_to_frozenset']
+    if len(fz) != 1:
+        raise TranslationError("F21", "mapping_to_frozenset", "not found")
+    src = ast.unparse(fz[0])
+    typed = "isinstance(value, (bool, int, float))" in src and "aggregation[key] = (type(value), value)" in src
+    for needle in ("isinstance(value, Mapping)", "isinstance(value, Sequence)", "isinstance(value, Set)", "return frozenset(aggregation.items())"):
+        if needle not in src:
+            raise TranslationError("F21", "mapping_to_frozenset", "case list changed: missing " + needle)
+    return {"cache_sites": sites, "cache_typed_scalars": typed}
 
 
 def introspect(repo):
@@ -419,7 +489,11 @@ def to_coq(F):
     L.append("  f_sp_drops := %s;" % clist("(%s, %s)" % (cs(n), clist("%d%%nat" % i for i in l)) for n, l in F['sp_drops']))
     L.append("  f_forwards_update := %s;" % clist("(%s, %s)" % (cs(n), "true" if b else "false") for n, b in F['forwards_update']))
     L.append("  f_pipeline := %s;" % clist(map(cs, F['pipeline'])))
-    L.append("  f_resets := %s" % clist(map(cs, F['resets'])))
+    L.append("  f_resets := %s;" % clist(map(cs, F['resets'])))
+    L.append("  f_validate_prologue := %s;" % clist(map(cs, F['validate_prologue'])))
+    L.append("  f_cache_sites := %s;" % clist("(%s, %s)" % (cs(a), cs(b)) for a, b in F['cache_sites']))
+    L.append("  f_cache_typed_scalars := %s;" % ("true" if F['cache_typed_scalars'] else "false"))
+    L.append("  f_cache_per_class := %s" % ("true" if F['cache_per_class'] else "false"))
     L.append("|}.")
     return "\n".join(L) + "\n"
 
@@ -428,6 +502,7 @@ def translate(repo):
     F = {}
     F.update(errors_facts(repo))
     F.update(validator_facts(repo))
+    F.update(cache_facts(repo))
     F.update(introspect(repo))
     return F
 
